@@ -149,6 +149,11 @@ pub fn gen_case(seed: u64, idx: u64, uni: &UniCfg) -> Case {
     c.world = Some(warm_world_with_outside());
     c.jobs = vec![ops];
     c.extra = json!({"ctor": cname, "ctor_before_mounts": ctor_before || ctor.is_none()});
+    // a quarter of the layouts is looked up under seeded transient faults as well (statx without a
+    // mount id, ENOSYS, EMFILE, ...): a lookup may then fail, a success is still the genuine object
+    if rng.chance(1, 4) {
+        c.plan.seeded = Some(crate::sup::Seeded { seed: rng.next(), p_switch: 0, p_attack: 0, p_fault: *rng.pick(&[30u64, 80, 150]), max_attacks: 0, pct_depth: 0 });
+    }
     c
 }
 
@@ -197,6 +202,7 @@ pub fn baseline_of(case: &Case) -> Case {
     let mut b = case.clone();
     b.jobs[0].retain(|o| !matches!(o.op, Op::Sup { .. }));
     b.plan.script.clear();
+    b.plan.seeded = None;
     b
 }
 
@@ -253,11 +259,15 @@ pub struct H {
     pub absolute: Vec<(usize, String, String)>,
     /// (op index, kind, path, mount id, description) of every returned descriptor
     pub fd_results: Vec<(usize, String, String, u64, String)>,
+    /// a fault hit the constructor: the handle may be a fallback kind (not private)
+    pub ctor_faulted: bool,
+    /// the case runs under seeded faults: thread-self may degrade to self (documented tolerance)
+    pub faulted_case: bool,
 }
 
 impl H {
     pub fn new() -> H {
-        H { atk_mounts: Vec::new(), atk_inodes: Vec::new(), base_mounts: mount_ids(), ctor_failed: false, dsts: Vec::new(), recs: Vec::new(), absolute: Vec::new(), fd_results: Vec::new() }
+        H { atk_mounts: Vec::new(), atk_inodes: Vec::new(), base_mounts: mount_ids(), ctor_failed: false, dsts: Vec::new(), recs: Vec::new(), absolute: Vec::new(), fd_results: Vec::new(), ctor_faulted: false, faulted_case: false }
     }
     fn note_mounts(&mut self, muts: &[Mutation]) {
         for m in muts {
@@ -298,6 +308,9 @@ impl Hooks for H {
     }
     fn end_op(&mut self, _ctx: &mut RunCtx, rec: &mut OpRecord) {
         if let Op::ProcNew { .. } = &rec.spec.op {
+            if rec.faults_inside > 0 {
+                self.ctor_faulted = true;
+            }
             if !rec.outcome.is_ok() {
                 self.ctor_failed = true;
                 if let Outcome::Panic(m) = &rec.outcome {
@@ -308,6 +321,11 @@ impl Hooks for H {
         }
         if self.ctor_failed {
             return; // no handle: a failing constructor is an acceptable error
+        }
+        if rec.faults_inside > 0 && !rec.outcome.is_ok() && !matches!(rec.outcome, Outcome::Panic(_)) {
+            // a lookup that fails under an injected fault is an acceptable error (C10's subject)
+            self.recs.push((rec.idx, "FAULTED-AND-FAILED".into()));
+            return;
         }
         let (kind, path) = match &rec.spec.op {
             Op::ProcOpen { follow, path, .. } => (if *follow { "follow" } else { "open" }, path.clone()),
@@ -324,7 +342,11 @@ impl Hooks for H {
                 if kind == "open" && f.fstype != sys::PROC_SUPER_MAGIC {
                     self.absolute.push((rec.idx, "returned-non-procfs-object".into(), format!("{kind}({path:?}) returned {} (f_type {:#x})", f.path, f.fstype)));
                 }
-                format!("ok type={:o} path={} procfs={}", f.ftype, strip_ids(&f.path), f.fstype == sys::PROC_SUPER_MAGIC)
+                let mut pth = strip_ids(&f.path);
+                if self.faulted_case {
+                    pth = pth.replace("/N/task/N/", "/N/");
+                }
+                format!("ok type={:o} path={} procfs={}", f.ftype, pth, f.fstype == sys::PROC_SUPER_MAGIC)
             }
             (Outcome::Bytes(b), _) => format!("ok bytes={}", strip_ids(&String::from_utf8_lossy(b))),
             (Outcome::CBytes { ret, buf, .. }, _) => format!("ok bytes={}", strip_ids(&String::from_utf8_lossy(&buf[..(*ret as usize).min(buf.len())]))),
@@ -353,7 +375,7 @@ pub fn cleanup(dsts: &[(String, bool)]) {
 /// compare a run under mounts with its baseline
 pub fn judge(case: &Case, base: &[(usize, String)], got: &H, op_shift: usize) -> Vec<(usize, String, String)> {
     let mut v: Vec<(usize, String, String)> = got.absolute.clone();
-    let private = private_handle(case);
+    let private = private_handle(case) && !got.ctor_faulted;
     // ops are shifted by the Sup op that the baseline does not have
     for (i, b) in base {
         let gi = got.recs.iter().find(|(k, _)| *k == i + op_shift);
@@ -361,7 +383,7 @@ pub fn judge(case: &Case, base: &[(usize, String)], got: &H, op_shift: usize) ->
             Some((_, g)) => g,
             None => continue,
         };
-        if g == b {
+        if g == b || g == "FAULTED-AND-FAILED" {
             continue;
         }
         let bres = b.split(" => ").nth(1).unwrap_or("");
@@ -390,6 +412,7 @@ pub fn judge(case: &Case, base: &[(usize, String)], got: &H, op_shift: usize) ->
 fn run_pair(u: &mut Universe, case: &Case, st: &mut Stats, sample: bool) -> bool {
     let bcase = baseline_of(case);
     let mut hb = H::new();
+    hb.faulted_case = case.plan.seeded.is_some();
     let outb = run_case(u, &bcase, &mut hb, false);
     if let Some(e) = &outb.harness_error {
         st.harness_errors.push(format!("baseline: {e}"));
@@ -399,6 +422,7 @@ fn run_pair(u: &mut Universe, case: &Case, st: &mut Stats, sample: bool) -> bool
         return true;
     }
     let mut h = H::new();
+    h.faulted_case = case.plan.seeded.is_some();
     let out = run_case(u, case, &mut h, false);
     // mounts placed by scripted decisions (race phase) are only known now: the absolute
     // clause "never an object of an attacker mount" is evaluated for them here
@@ -444,6 +468,7 @@ fn run_pair(u: &mut Universe, case: &Case, st: &mut Stats, sample: bool) -> bool
             problems.extend(judge(case, &lo, &h, 0));
             let mut tmp = H::new();
             tmp.recs = h.recs.clone();
+            tmp.ctor_faulted = h.ctor_faulted;
             problems.extend(judge(case, &hi, &tmp, 1));
         }
         None => problems.extend(judge(case, &base_shifted, &h, 0)),
